@@ -443,3 +443,55 @@ def slice_(config, idim, model):
                 if (a, b) != (0, n) or True:
                     cases.append((axes, nref, a, b))
     _run('StructuredTopology.slice', _chk_slice(config, idim), cases, mc)
+
+
+# -------------------------------------------------------------------------- SubsetTopology.connectivity (index level) --
+
+class _FakeRef:
+    def __init__(self, keep, nedges):
+        self.keep, self.nedges = keep, nedges
+
+    def __bool__(self):
+        return self.keep
+
+
+def _chk_subset(case):
+    import types as _t
+    from nutils import topology
+    table, keep, extra = case
+    N = len(table)
+    me = _t.SimpleNamespace(refs=tuple(_FakeRef(k, len(row) + x) for k, row, x in zip(keep, table, extra)),
+                            basetopo=_t.SimpleNamespace(connectivity=tuple(numpy.array(row, dtype=int) for row in table)))
+    res = [list(map(int, r)) for r in topology.SubsetTopology.connectivity.func(me)]
+    K = [i for i in range(N) if keep[i]]
+    ren = {i: a for a, i in enumerate(K)}
+    want = [[ren.get(c, -1) if c >= 0 else -1 for c in table[i]] + [-1] * extra[i] for i in K]
+    if res != want:
+        return 'subset connectivity %r, expected %r (kept %r of base table %r)' % (res, want, K, table)
+
+
+def _subset_tables(N, E):
+    """symmetric, paired base tables: all tables with entries in [-1, N) that pair faces (small N, E: exhaustive up to a cap)"""
+    out = []
+    for flat in itertools.product(range(-1, N), repeat=N * E):
+        t = [list(flat[i * E:(i + 1) * E]) for i in range(N)]
+        if all(t[i].count(j) == t[j].count(i) for i in range(N) for j in range(N)):
+            out.append(t)
+            if len(out) >= 300:
+                break
+    return out
+
+
+def subset_connectivity(N, E, extra, model, empty=False):
+    mc = None
+    try:
+        table = [[_val(model, 'c_%d_%d' % (i, e)) for e in range(E)] for i in range(N)]
+        keep = [bool(_val(model, 'keep%d' % i, False)) for i in range(N)]
+        if all(x is not None and -1 <= x < N for r in table for x in r):
+            mc = (table, keep, tuple(extra))
+    except Exception:
+        mc = None
+    if mc is not None and any(mc[1]) == empty:
+        mc = None  # outside the precondition of this contract (nothing kept / something kept)
+    cases = [(t, keep, tuple(extra)) for t in _subset_tables(N, E) for keep in itertools.product((False, True), repeat=N) if any(keep) != empty]
+    _run('SubsetTopology.connectivity', _chk_subset, cases, mc)
